@@ -32,7 +32,8 @@ CONSTANTS Tables,       \* user table names
           CrashAt,      \* subset of {"idle", "wal", "flush"}: where Crash is enabled
           FixDeleteLSN, \* TRUE: a delete takes a fresh LSN (repaired code)
           FixReplayLSN, \* TRUE: replay never moves the LSN counter backwards (repaired code)
-          FixReplayRoot \* TRUE: replay of an insert that moves its table's root updates the catalog itself (repaired code)
+          FixReplayRoot, \* TRUE: replay of an insert that moves its table's root updates the catalog itself (repaired code)
+          FixReplayKey  \* TRUE: replay raises the key counter to every logged key (repaired code: the header may be older than the pages)
 
 VARIABLES disk, dhdr, cache, mhdr, walD, torn, walU, pc,
           abs, pend, cands, taint, scope,
@@ -339,14 +340,22 @@ FlushHdr ==
        [] pc.after = "rec" -> RecoveredTo(disk, mhdr)
   /\ UNCHANGED <<disk, walD, torn, walU, taint, scope>>
 
+\* every clean page leaves the page cache (eviction, or a cache replaced by a smaller one): nothing
+\* changes, because a clean cached page equals its disk image - this is all there is to say about C16
+\* at this level; the step exists so that TLC generates paths that continue after it
+EvictAll == /\ pc.k = "idle" /\ cache = <<>>
+            /\ Out("evicted")
+            /\ UNCHANGED <<disk, dhdr, cache, mhdr, walD, torn, walU, pc, abs, pend, cands, taint, scope>>
+
 -----------------------------------------------------------------------------
 (* Crash and recovery.                                                       *)
 
-\* A flush is torn structurally when the crash leaves some of its pages written and some not, and
-\* the flush included pages that had never been written before (allocated by a split or by CREATE
-\* TABLE since the last completed flush).  Redo is keyed on the LSN of the page a record names, so
-\* a half-written structural change is not repaired: known finding torn-structural-flush.
-TornStructural == /\ pc.orig \ pc.todo # {} /\ pc.todo # {} /\ pc.fresh # {}
+\* A flush that includes pages never written before (allocated by a split or by CREATE TABLE since
+\* the last completed flush) is not atomic: if the process dies after its first page write and before
+\* its header write, recovery cannot repair what is missing - redo is keyed on the LSN of the page a
+\* record names, CREATE TABLE is not logged, and the catalog root lives in the header.  This is the
+\* known finding torn-structural-flush.  A flush of already existing pages may be torn anywhere.
+TornStructural == pc.fresh # {} /\ pc.orig \ pc.todo # {}
 
 \* does the durable part of the statement's records end between an insert record and the
 \* root-move record that follows it?  (known finding rootmove-record-cut)
@@ -372,7 +381,7 @@ Crash(keep) ==
                       [] pc.after = "create" -> <<abs>> \o pend
                       [] pc.after = "rec" -> cands
         /\ taint' = IF TornStructural THEN taint \cup {"torn-structural-flush"} ELSE taint
-        /\ scope' = "tornflush"      \* C04 judges the state right after the restart; later statements are out of scope
+        /\ UNCHANGED scope
         /\ UNCHANGED <<walD, torn>>
   /\ pc' = [Idle EXCEPT !.k = "down"]
   /\ cache' = <<>> /\ walU' = <<>> /\ pend' = <<>> /\ Out("none")
@@ -383,7 +392,8 @@ RECURSIVE Replay(_, _, _, _)
 Replay(st, h, d, i) ==
   IF i > Len(walD) THEN [c |-> st.c, nx |-> st.nx, h |-> h, st |-> "ok"] ELSE
   LET r == walD[i]
-      h1 == IF FixReplayLSN THEN (IF r.lsn >= h.lsn THEN [h EXCEPT !.lsn = r.lsn] ELSE h) ELSE [h EXCEPT !.lsn = r.lsn]
+      h0 == IF FixReplayKey /\ r.op = "ins" /\ r.k > h.lastKey THEN [h EXCEPT !.lastKey = r.k] ELSE h
+      h1 == IF FixReplayLSN THEN (IF r.lsn >= h0.lsn THEN [h0 EXCEPT !.lsn = r.lsn] ELSE h0) ELSE [h0 EXCEPT !.lsn = r.lsn]
       n == Rd(st.c, d, r.pg)
   IN IF r.lsn <= n.lsn THEN Replay(st, h1, d, i + 1) ELSE
      CASE r.op = "ins" ->
